@@ -13,6 +13,7 @@ package main
 
 import (
 	"bytes"
+	"context"
 	"encoding/csv"
 	"encoding/json"
 	"fmt"
@@ -297,7 +298,9 @@ func runC15(r *evid.Run) {
 		if sc.Mode == "stop" {
 			args = append(args, "-sim-stop-on-valid-of", "0")
 		}
-		cmd := exec.Command(bin, args...)
+		cctx, ccancel := context.WithTimeout(context.Background(), 2*time.Minute)
+		cmd := exec.CommandContext(cctx, bin, args...)
+		defer ccancel()
 		cmd.Dir = scratch
 		var stdout, stderr bytes.Buffer
 		cmd.Stdout, cmd.Stderr = &stdout, &stderr
